@@ -102,18 +102,19 @@ def main(prop, tier):
     if tier == 'quick':
         cans = cans[:1]
     jobs = int(os.environ.get('VERIF_JOBS', '15'))
-    ded, ded_can = None, []
+    deds, ded_can = [], []
     sess_results = []
     probe = None
     try:
-        with cf.ThreadPoolExecutor(max_workers=4) as pool:
+        with cf.ThreadPoolExecutor(max_workers=8) as pool:
             fc = [pool.submit(run_canary, prop, c, i, tier) for i, c in enumerate(cans)]
-            du = DED_UNIT.get(prop)
-            if du:
+            dus = DED_UNIT.get(prop, [])
+            fds, fdcs = [], []
+            for du in dus:
                 # deductive part (Verus, unbounded in the document and in the inputs of the extracted functions); the Kani
                 # harnesses below check the line-map contract it assumes, and the same functions once more, on enumerated documents
-                fd = pool.submit(side_unit.run, du)
-                fdc = [pool.submit(side_unit.canary, du, c, i) for i, c in enumerate(side_unit.UNITS[du]['canaries'][:1 if tier == 'quick' else None])]
+                fds.append(pool.submit(side_unit.run, du))
+                fdcs += [pool.submit(side_unit.canary, du, c, i) for i, c in enumerate(side_unit.UNITS[du]['canaries'][:1 if tier == 'quick' else None])]
             # native probe of the real Server: C15 looks at the whole-notification scenarios, C13 at the generated edit histories (K6)
             fprobe = pool.submit(session_probe.run_probe, REPO, 40 if tier == 'quick' else 400, seed()) if prop in ('C13', 'C15') else None
             results = kani_run.run_many(d, names, FLAGS, 2400, jobs=jobs)
@@ -126,9 +127,8 @@ def main(prop, tier):
                 if probe['status'] == 'failed' and not probe['symptoms']:
                     probe['status'] = 'passed'
             can = [f.result() for f in fc]
-            if du:
-                ded = fd.result()
-                ded_can = [f.result() for f in fdc]
+            deds = [f.result() for f in fds]
+            ded_can = [f.result() for f in fdcs]
     except Undecided as e:
         return undecided(prop, tier, t0, str(e))
     byname = {h['name']: h for h in hs + sess_hs}
@@ -177,7 +177,7 @@ def main(prop, tier):
             path = write_replay(prop, oblig, 'crates/glas/src/server.rs (Server::on_did_change)', 'native probe on a scratch copy of the real crate (bounded stand-in)',
                                 json.dumps(probe['symptoms'], indent=1), wit, './check %s --replay <this file>' % prop)
             violations.append((path, True))
-    if ded and ded['status'] == 'failed':
+    for ded in [x for x in deds if x['status'] == 'failed']:
         # failed obligations of the deductive part; a concrete failing input, when there is one, comes from the Kani harnesses above
         seen_fn = set()
         for f in ded['failures']:
@@ -191,11 +191,11 @@ def main(prop, tier):
             path = write_replay(prop, f['id'], f['where'], 'verus 0.2026.09.13', '\n'.join(x['rendered'] for x in ded['failures'] if x['fn'] == f['fn']),
                                 wit, './check %s --replay <this file>' % prop)
             violations.append((path, wit is not None))
-    if ded and ded['status'] == 'verified':
+    for ded in [x for x in deds if x['status'] == 'verified']:
         if ded.get('reachability_guard') != 'rejected-as-required':
             guard.append('%s unit: precondition reachability guard: %s' % (ded['unit'], ded.get('reachability_guard')))
-        if any(c['status'] == 'NOT-TRIPPED' for c in ded_can):
-            guard.append('%s unit: canary not detected: %s' % (ded['unit'], [c['name'] for c in ded_can if c['status'] == 'NOT-TRIPPED']))
+    if deds and all(x['status'] == 'verified' for x in deds) and any(c['status'] == 'NOT-TRIPPED' for c in ded_can):
+        guard.append('deductive units: canary not detected: %s' % [c['name'] for c in ded_can if c['status'] == 'NOT-TRIPPED'])
     ok = [r for r in results if r['status'] == 'SUCCESSFUL']
     for r in ok:
         if r.get('unsat_covers'):
@@ -221,11 +221,11 @@ def main(prop, tier):
            'canaries': can + ded_can, 'checker_cmd': results[0]['cmd'] if results else ''}
     if probe:
         cov['session_probe'] = probe
-    if ded:
-        cov['deductive_part'] = ded
-        if ded['status'] == 'verified':
-            cov['obligations'], cov['discharged'] = ded['verified'] + ded['errors'], ded['verified']
-    assumptions = ex['standins'] + ([DED_NOTE[ded['unit']]] if ded else []) + [
+    if deds:
+        cov['deductive_part'] = deds[0] if len(deds) == 1 else {'units': deds, 'status': 'verified' if all(x['status'] == 'verified' for x in deds) else ('failed' if any(x['status'] == 'failed' for x in deds) else 'undecided')}
+        if all(x['status'] == 'verified' for x in deds):
+            cov['obligations'], cov['discharged'] = sum(x['verified'] + x['errors'] for x in deds), sum(x['verified'] for x in deds)
+    assumptions = ex['standins'] + [DED_NOTE[x['unit']] for x in deds] + [
         'oracle: tools/lsp_reference.py, a naive LSP client written from the specification (shares no code with glas)',
         'server.rs::on_did_change (tokio / async-lsp) is not buildable under Kani: the per-change loop is covered only by the induction argument of DESIGN.md 3.4 (K6)',
         'Slab, Arc, text-size, anyhow are the real crates, executed symbolically; arithmetic is CBMC machine arithmetic with overflow checks (debug-build semantics)',
@@ -241,13 +241,18 @@ def main(prop, tier):
     finish(prop, violations, known_lines)
 
 
-DED_UNIT = {'C19': 'semtok', 'C15': 'conv'}
+DED_UNIT = {'C19': ['semtok'], 'C15': ['conv', 'vfs'], 'C13': ['vfs']}
 DED_NOTE = {}
 DED_NOTE['conv'] = ('deductive part (Verus): convert::from_pos and convert::from_range (ensure! expanded, R17) are verified for ALL client positions / ranges and ALL line maps, '
                     'relative to the contracts of LineMap::last_line / end_col_for_line (requires an existing line) / pos_for_line_col (requires a valid position) and Vfs::line_map_for_file: a position is accepted exactly '
                     'when its line exists and its column is within the line, and then converts to the line map\'s offset; a range exactly when both ends are accepted and it is not reversed; TextRange::new is only '
                     'reached with start <= end; the validating calls happen before the converting call. ASSUMED there: those contracts (what the Kani harnesses establish on enumerated documents), the stand-in structs, anyhow::Error as an opaque value. '
                     'If the unit cannot be extracted or Verus rejects it, this part is reported as undecided and the bounded harnesses alone decide.')
+DED_NOTE['vfs'] = ('deductive part (Verus): Vfs::change_file_content (rewrites R17, R20-R22 of tools/extract_vfs.py) is verified for ALL documents, delete ranges and inserted texts relative to the contract of LineMap::normalize '
+                   '(the text without CR and THE line map of that text - what the Kani harnesses K1 establish on enumerated documents): a ranged change is accepted exactly when the range ends inside the text and both ends are character boundaries; '
+                   'the stored text is strip_cr(text[..start] + inserted + text[end..]) resp. strip_cr(inserted), the stored line map is the one of the stored text, no other file changes, the analysis is told the new text exactly once; '
+                   'a rejected change leaves the file table and the change log untouched. ASSUMED there: slab::Slab as a finite map (indexing a vacant key is a failed precondition), Arc / String / str slicing by assume_specification, the text-size stand-ins, '
+                   'stored texts < 4 GiB (LineMap::normalize panics otherwise). If the unit cannot be extracted or Verus rejects it, this part is reported as undecided and the bounded harnesses alone decide.')
 DED_NOTE['semtok'] = ('deductive part (Verus): convert::to_semantic_tokens, to_range and semantic_tokens::to_semantic_type_and_modifiers are verified for ALL highlight lists '
             '(sorted, disjoint, on character boundaries, inside the text) and ALL line maps satisfying LineMap::ok (line_col_for_pos monotone on boundaries, lines <= last_line, '
             'columns <= end_col_for_line): no arithmetic underflow/overflow, end_col_for_line only called for existing lines, and the LSP decoding of the result equals the per-line pieces '
